@@ -442,11 +442,6 @@ func (in *Interp) evalTry(ops []val.V, env *Env) (val.V, *Thrown) {
 	var handler, fin []val.V
 	hasCatch, hasFin := false, false
 	last := ops[len(ops)-1]
-	for _, o := range ops {
-		if o.K == val.List && len(o.L) == 0 {
-			in.Unspecified("empty list inside try")
-		}
-	}
 	if headIs(last, "finally") {
 		hasFin = true
 		fin = last.L[1:]
